@@ -48,5 +48,7 @@ cc7d7ae C06
 5b435ac C06 C03
 84ffd44 C03
 2a11884 C10
+150fd1a C16
+6bbdeea C01 C04
 L
 exit $bad
